@@ -10,7 +10,7 @@ from vf.strategies import uniform_int
 RULE = ("for each of the four pairing modules, scalars a, b, a', b' from {0, 1, 2, 3, r-2, r-1, r}, every bit "
         "length and uniform, optimized modules with independent random projective scalings of each argument "
         "and several representatives of infinity: pairing(bG2, aG1) == e0^(ab mod r) with e0 = pairing(G2, G1); "
-        "pairing(Q+Q', P) == pairing(Q, P) pairing(Q', P) and the same in P; pairing(-Q, P) == pairing(Q, -P) == "
+        "pairing(Q+Q', P) == pairing(Q, P) pairing(Q', P) and the same in P, the sum formed by the model or by the module's own add() on differently scaled representatives (including Q' = Q); pairing(-Q, P) == pairing(Q, -P) == "
         "pairing(Q, P)^-1; e0 != 1 and e0^r == 1; infinity in either slot gives FQ12.one(); a right-typed point "
         "that is not on its curve (coordinate + 1, random coordinates, any scaling; the other argument a subgroup point or infinity) raises ValueError instead of "
         "returning a value. Non-trivial = ab != 0 mod r with max(a, b) >= 2^128, an additivity case with "
@@ -20,7 +20,7 @@ ASSUMPTIONS = ["points are built by the affine model (vf/model/ec.py) from the p
 ENGINE = "hypothesis (algebraic laws)"
 TECHNIQUE = ("property-based testing (Hypothesis) of algebraic laws: bilinearity, additivity, inversion, order r, unit on infinity, refusal of off-curve input")
 _REQ = [f"{law}:{m}" for m in pc.MODULES for law in ("bilinear", "additive", "negation", "order", "infinity", "offcurve")]
-_REQ += ["bilinear:raw_first", "bilinear:scaled", "bilinear:big_scalars", "infinity:rep", "offcurve:other_argument_infinity"]
+_REQ += ["additive:library_sum", "additive:library_sum_of_equal_points", "bilinear:raw_first", "bilinear:scaled", "bilinear:big_scalars", "infinity:rep", "offcurve:other_argument_infinity"]
 REQUIRED_LABELS = {"quick": _REQ, "thorough": _REQ}
 
 
@@ -68,14 +68,29 @@ def o_additive(ctx, case):
     curve = pc.CURVE_OF[name]
     C = mc.CURVES[curve]
     ctx.begin("additive", case)
+    lib_sum = case.get("lib_sum", False)
+    M = mod(name).m
     if slot == "Q":
         Q1, Q2, Pm = pc.kG(curve, "G2", a), pc.kG(curve, "G2", b), pc.kG(curve, "G1", c)
-        lhs = _pair(name, C.add("G2", Q1, Q2), Pm, case.get("sq"), case.get("sp"))
+        if lib_sum:
+            # the sum formed by the module's own add() on two (differently scaled) representatives
+            S = M.add(pc.lib_pt(name, "G2", Q1, scale=pc.unscale(case.get("sq"))), pc.lib_pt(name, "G2", Q2))
+            lhs = pc.pm(name).pairing(S, pc.lib_pt(name, "G1", Pm, scale=pc.unscale(case.get("sp"))))
+        else:
+            lhs = _pair(name, C.add("G2", Q1, Q2), Pm, case.get("sq"), case.get("sp"))
         rhs = _pair(name, Q1, Pm) * _pair(name, Q2, Pm)
     else:
         P1, P2, Qm = pc.kG(curve, "G1", a), pc.kG(curve, "G1", b), pc.kG(curve, "G2", c)
-        lhs = _pair(name, Qm, C.add("G1", P1, P2), case.get("sq"), case.get("sp"))
+        if lib_sum:
+            S = M.add(pc.lib_pt(name, "G1", P1, scale=pc.unscale(case.get("sp"))), pc.lib_pt(name, "G1", P2))
+            lhs = pc.pm(name).pairing(pc.lib_pt(name, "G2", Qm, scale=pc.unscale(case.get("sq"))), S)
+        else:
+            lhs = _pair(name, Qm, C.add("G1", P1, P2), case.get("sq"), case.get("sp"))
         rhs = _pair(name, Qm, P1) * _pair(name, Qm, P2)
+    if lib_sum:
+        ctx.label("additive:library_sum")
+        if a % C.r == b % C.r:
+            ctx.label("additive:library_sum_of_equal_points")
     ctx.check(pc.coeffs(lhs) == pc.coeffs(rhs), "additive", f"slot_{slot}", case,
               f"{name}: pairing of a sum in the {slot} argument != product of pairings (a={a}, b={b}, c={c})")
     ctx.label(f"additive:{name}")
@@ -218,9 +233,21 @@ def t_laws(ctx, module, shard, nb, na, nn):
                                                            "raw_first": st.booleans()}),
           lambda c: o_bilinear(ctx, c), nb, ex, shrink=False)
     small = st.one_of(st.integers(1, 40), uniform_int(1, r - 1))
+
+    def same_sometimes(d):
+        d = dict(d)
+        if d.pop("same"):
+            d["b"] = d["a"]            # P + P reached through add() with two representatives
+        return d
+    ex_add = []
+    if name.startswith("optimized"):
+        ex_add = [{"module": name, "a": 5, "b": 5, "c": 3, "slot": sl, "sq": [1, 1], "sp": 2, "lib_sum": True}
+                  for sl in ("Q", "P")][shard:shard + 1]
     drive(ctx, f"add{name}{shard}", st.fixed_dictionaries({"module": st.just(name), "a": small, "b": small, "c": small,
-                                                           "slot": st.sampled_from(["Q", "P"]), "sq": sq, "sp": sp}),
-          lambda c: o_additive(ctx, c), na, shrink=False)
+                                                           "slot": st.sampled_from(["Q", "P"]), "sq": sq, "sp": sp,
+                                                           "lib_sum": st.booleans(), "same": st.sampled_from([False, False, True])}
+                                                          ).map(same_sometimes),
+          lambda c: o_additive(ctx, c), na, ex_add, shrink=False)
     drive(ctx, f"neg{name}{shard}", st.fixed_dictionaries({"module": st.just(name), "a": small, "b": small, "sq": sq, "sp": sp}),
           lambda c: o_negation(ctx, c), nn, shrink=False)
 
